@@ -40,7 +40,9 @@ async def _run(rng, desc):
 
     def new_conn():
         i = len(conns)
-        link = links.make_link(desc['link'], rng)
+        kc = links.Knobs(rng)
+        kc.connect = tuple(desc.get('connect', ('none',)))       # transports whose connect() suspends
+        link = links.make_link(desc['link'], rng, kc, None)
         link.tap.listeners.append(lambda ev, i=i: world.events.append(
             {'t': ev[0], 'kind': 'wire', 'ep': ev[1], 'dir': ev[2], 'f': ev[3], 'conn': i, 'i': len(world.events)}))
         h = ScriptedHandler(world, 's', driver)
@@ -51,7 +53,9 @@ async def _run(rng, desc):
         return c
 
     async def provider():
+        from ..apps import _pace
         while len(conns) < 6:
+            await _pace(tuple(desc.get('provider_wait', ('none',))))     # e.g. asyncio.open_connection suspends
             c = new_conn()
             yield c['link'].transports['c']
 
@@ -236,6 +240,8 @@ def gen_case(rng):
                        'before': rng.choice([0.0, 0.01, 0.12, 0.6, rng.random()]),
                        'task_delay': rng.choice([0.0, 0.01, 0.3, 2.5, 5.0])})
     return {'link': rng.choice(['bytes', 'messages']), 'P': 0.5, 'L': 2.0,
+            'connect': rng.choice([('none',), ('none',), ('ticks', 1), ('ticks', 3), ('virtual', 0.01)]),
+            'provider_wait': rng.choice([('none',), ('none',), ('ticks', 1), ('ticks', 4), ('virtual', 0.05)]),
             'reconnect_from': rng.choice(['on_close', 'on_keepalive_timeout', 'task']), 'rounds': rounds}
 
 
